@@ -607,21 +607,25 @@ def gen_complex(rng, tier):
     kind = str(rng.choice(["MakeComplex", "RealPart", "ImagPart", "ComplexNorm"]))
     sh = [(), (5,), (2, 3)][int(rng.integers(3))]
 
+    mag = 10.0 ** rng.uniform(-9, 9) if rng.random() < 0.4 else 1.0      # phasors in nm or GPa: no operation here has an absolute scale
+
     def val(c):
-        a = rng.standard_normal(sh) + (1j * rng.standard_normal(sh) if c else 0)
+        a = (rng.standard_normal(sh) + (1j * rng.standard_normal(sh) if c else 0)) * mag
         return (complex(a) if c else float(a)) if sh == () else a
+    def dirs(r):       # directions at the magnitude of the data (the reference of the linear modules is a difference of responses)
+        return [rand_like(r, x, scale=mag) for x in x0]
     if kind == "MakeComplex":
         x0 = [val(False), val(False)]
-        return Cfg(kind, f"{kind}/{sh}", lambda: pym.MakeComplex([_S("x", x0[0]), _S("y", x0[1])], pym.Signal("z")), x0)
+        return Cfg(kind, f"{kind}/{sh}", lambda: pym.MakeComplex([_S("x", x0[0]), _S("y", x0[1])], pym.Signal("z")), x0, dirs=dirs)
     c = bool(rng.random() < 0.75)
     x0 = [val(c)]
     if kind == "ComplexNorm":
         def tangent(x0_, y0, v):
             z = np.asarray(x0_[0])
             return [np.real(np.conj(z) * v[0]) / np.abs(z)]
-        return Cfg(kind, f"{kind}/{sh}/cx{c}", lambda: pym.ComplexNorm(_S("z", x0[0]), pym.Signal("a")), x0, tangent=tangent)
+        return Cfg(kind, f"{kind}/{sh}/cx{c}", lambda: pym.ComplexNorm(_S("z", x0[0]), pym.Signal("a")), x0, tangent=tangent, dirs=dirs)
     cl = pym.RealPart if kind == "RealPart" else pym.ImagPart
-    return Cfg(kind, f"{kind}/{sh}/cx{c}", lambda: cl(_S("z", x0[0]), pym.Signal("a")), x0)
+    return Cfg(kind, f"{kind}/{sh}/cx{c}", lambda: cl(_S("z", x0[0]), pym.Signal("a")), x0, dirs=dirs)
 
 
 class FrozenScaling:
